@@ -209,11 +209,62 @@ def _stmt_header(msk, open_pos):
     return st, msk[st:open_pos]
 
 
+def _match_arms(msk, mo, mc):
+    """bodies of the arms of the match block msk[mo..mc]: list of (start, end, is_block)"""
+    arms = []
+    i = mo + 1
+    while i < mc:
+        # find `=>` at depth 0
+        j = i
+        found = -1
+        while j < mc:
+            c = msk[j]
+            if c in lex.OPEN:
+                j = lex.match_bracket(msk, j) + 1
+                continue
+            if c == '=' and msk[j + 1] == '>':
+                found = j
+                break
+            j += 1
+        if found < 0:
+            break
+        k = found + 2
+        while k < mc and msk[k] in ' \t\n':
+            k += 1
+        if msk[k] == '{':
+            e = lex.match_bracket(msk, k) + 1
+            arms.append((k, e, True))
+            i = e
+            while i < mc and msk[i] in ' \t\n,':
+                i += 1
+        else:
+            e = lex.find_at_depth0(msk, k, mc, ',')
+            if e < 0:
+                e = mc
+                while e > k and msk[e - 1] in ' \t\n':
+                    e -= 1
+            arms.append((k, e, False))
+            i = e + 1
+    return arms
+
+
+_DIVERGES = re.compile(r'^\s*(return\b|continue\b|break\b|panic!|unreachable!|unimplemented!|todo!)')
+
+
 def rewrite_continue_flag(text, log):
     """D45 (Verus for-loops have no `continue`): in a `for` body, `continue;` becomes `_skipN = true;` and, at every enclosing
     statement-block level up to the loop body, the statements that follow are wrapped in `if !_skipN { .. }`.  `_skipN` is declared
-    `false` at the top of the body.  Only statement positions are handled: a `continue` inside an initialiser / assignment / closure
-    aborts the extraction (UNDECIDED).  Applied only after Verus refused the unit for this very reason."""
+    `false` at the top of the body.  The skip-on-error idiom `let P = match E { A => V, B => { ..; continue; } };` is handled too:
+    it becomes `let _contN = match E { A => Some(V), B => { ..; _skipN = true; None } }; if !_skipN { let P = _contN.unwrap(); .. }`.
+    Any other value position (assignment, closure) aborts the extraction (UNDECIDED).  Applied only after Verus refused the unit
+    for this very reason."""
+    # D45a: a brace-less `=> continue,` arm is written with braces first (syntax only)
+    while True:
+        msk0 = lex.mask(text)
+        mm = re.search(r'=>\s*continue\s*,', msk0)
+        if not mm:
+            break
+        text = text[:mm.start()] + '=> { continue; }' + text[mm.end():]
     n = 0
     while True:
         msk = lex.mask(text)
@@ -239,19 +290,22 @@ def rewrite_continue_flag(text, log):
         if n > 20:
             raise ExtractError('D45: too many continue statements')
         flag = '_skip%d' % n
-        edits = []   # (start, end, replacement) on the current text, non-overlapping
+        edits = []   # (start, end, replacement) on the current text, non-overlapping; equal positions keep append order
         cur_open = _enclosing_open(msk, m.start())
         cur_close = lex.match_bracket(msk, cur_open)
         edits.append((m.start(), m.end(), flag + ' = true;'))
         rest_from = m.end()
+        prefix = ''
         while True:
             # wrap what follows inside the current statement block
-            if msk[rest_from:cur_close].strip():
-                edits.append((rest_from, rest_from, ' if !%s {' % flag))
+            if msk[rest_from:cur_close].strip() or prefix:
+                edits.append((rest_from, rest_from, ' if !%s {%s' % (flag, prefix)))
                 edits.append((cur_close, cur_close, '} '))
+                prefix = ''
             if cur_open == loop_open:
                 break
             # climb: the construct that owns cur block, inside its parent block (a match arm body climbs to the match statement)
+            arm_body = None
             while True:
                 parent_open = _enclosing_open(msk, cur_open - 1)
                 if parent_open < 0:
@@ -263,6 +317,7 @@ def rewrite_continue_flag(text, log):
                 if re.search(r'\bmatch\b[^;{}]*$', phdr) and re.search(r'=>\s*$', hdr):
                     if parent_open == loop_open:
                         raise ExtractError('D45: lost the loop body')
+                    arm_body = (cur_open, cur_close)
                     cur_open, cur_close = parent_open, lex.match_bracket(msk, parent_open)
                     continue
                 break
@@ -273,6 +328,31 @@ def rewrite_continue_flag(text, log):
                     raise ExtractError('D45: malformed else chain')
                 po = _enclosing_open(msk, prev_close - 1)
                 st, hdr = _stmt_header(msk, po)
+            lm = re.match(r"(?P<lead>\s*)let\s+(?P<pat>[^=:]+?)\s*(?::\s*(?P<ty>[^=]+?))?\s*=\s*match\b", hdr)
+            if lm and arm_body is not None and _enclosing_open(msk, arm_body[0] - 1) == cur_open:
+                # skip-on-error idiom: let P = match E { .. => V, .. => { ..; continue; } };
+                tail = re.match(r'\s*;', msk[cur_close + 1:])
+                if not tail:
+                    raise ExtractError('D45: let-match without `;`')
+                own = re.match(r'_cont\d+$', lm.group('pat').strip())
+                edits.append((arm_body[1] - 1, arm_body[1] - 1, ' None '))
+                if not own:
+                    tmp = '_cont%d' % n
+                    for (bs, be, is_block) in _match_arms(msk, cur_open, cur_close):
+                        if bs == arm_body[0]:
+                            continue
+                        body_txt = msk[bs + 1:be - 1] if is_block else msk[bs:be]
+                        last_stmt = body_txt.rstrip().rstrip(';').rsplit(';', 1)[-1] if is_block else body_txt
+                        if _DIVERGES.match(last_stmt if last_stmt.strip() else body_txt):
+                            continue
+                        edits.append((bs, bs, 'Some('))
+                        edits.append((be, be, ')'))
+                    ty = lm.group('ty')
+                    edits.append((st + lm.start(), st + lm.end(), '%slet %s = match' % (lm.group('lead'), tmp)))
+                    prefix = ' let %s%s = %s.unwrap();' % (lm.group('pat').strip(), (': ' + ty.strip()) if ty else '', tmp)
+                rest_from = cur_close + 1 + tail.end()
+                cur_open, cur_close = parent_open, lex.match_bracket(msk, parent_open)
+                continue
             if not re.match(r"\s*(?:'\w+\s*:\s*)?(if|match|for|while|loop|unsafe)\b|\s*$", hdr):
                 raise ExtractError('D45: continue in a value position (%s)' % hdr.strip()[:40])
             # end of the whole statement (walk forward over else chains)
@@ -291,10 +371,11 @@ def rewrite_continue_flag(text, log):
             rest_from = end
             cur_open, cur_close = parent_open, lex.match_bracket(msk, parent_open)
         edits.append((loop_open + 1, loop_open + 1, ' let mut %s: bool = false;' % flag))
-        for a, b, rep in sorted(edits, key=lambda e: (-e[0], -e[1])):
+        order = sorted(range(len(edits)), key=lambda i: (-edits[i][0], -edits[i][1], -i))
+        for i in order:
+            a, b, rep = edits[i]
             text = text[:a] + rep + text[b:]
         log.append(('D45', '`continue` in a for body replaced by flag %s guarding the rest of the iteration' % flag, text.count('\n', 0, m.start())))
-
 
 
 def rewrite_format(text, nth, log):
